@@ -4,7 +4,7 @@ import itertools, random
 
 ATOMS = ['X0', 'X1', 'X2', 'X3']
 GROUPS = ['GA', 'GB', 'GC']
-TRAITS = {'D': ['G'], 'D2': ['G', 'H'], 'Dp': ['G'], 'Dp<u8>': ['G'], 'Dq': ['G']}
+TRAITS = {'D': ['G'], 'D2': ['G', 'H'], 'Dp': ['G'], 'Dp<u8>': ['G'], 'Dq': ['G'], 'Dl': ['G']}
 
 
 def assocs_of(tr):
@@ -16,6 +16,7 @@ pub trait D { type G: ?Sized; }
 pub trait D2 { type G: ?Sized; type H: ?Sized; }
 pub trait Dp<P = ()> { type G: ?Sized; }
 pub trait Dq<P: ?Sized> { type G: ?Sized; }
+pub trait Dl<'a, 'b> { type G: ?Sized; }
 pub trait Tr0 {}
 pub enum GA {} pub enum GB {} pub enum GC {}
 pub struct X0; pub struct X1; pub struct X2; pub struct X3;
@@ -153,9 +154,11 @@ HEADERS = {
     'xpair': ('(X0, {T0})', ['T0']),
     'pairx': ('({T0}, X0)', ['T0']),
     'optpair': ('(Option<{T0}>, {T1})', ['T0', 'T1']),
+    'vecvec': ('(Vec<{T0}>, Vec<{T1}>)', ['T0', 'T1']),
+    'optvec': ('(Option<{T0}>, Vec<{T1}>)', ['T0', 'T1']),
 }
 SPELL = {'T0': ['T', 'U', 'A', 'Elem', 'Tr', 'T0'], 'T1': ['U', 'T', 'B', 'Other', 'V', 'G'],
-         'N0': ['N', 'M', 'LEN'], 'L0': ["'a", "'b", "'x"]}
+         'N0': ['N', 'M', 'LEN'], 'L0': ["'a", "'b", "'x"], 'L1': ["'y", "'c", "'p"], 'L2': ["'z", "'d", "'q"]}
 
 
 class Picker:
@@ -603,6 +606,50 @@ def gen_case(rng, kind, idx=None):
             elif not ty.startswith(wname + '<') and rng.random() < 0.5:
                 world[(ty, trt)] = {'G': inner[2]['G']}
         return Case(kind, 'K', '', blocks, probes, world)
+    elif kind == 'tworoots':
+        # two incomparable headers with a common specialisation and no common generalisation:
+        # (W<T>, U) keyed on U: D   |   (T, Vec<U>) keyed on T: D2   |   (W<T>, Vec<U>) keyed on W<T>: D2
+        # D is implemented for no Vec<_>, so the two main impls do not collide in coherence
+        lh, sh, wrap = pk.choice([('vecpair', 'vecvec', 'Vec<{T0}>'), ('optpair', 'optvec', 'Option<{T0}>')])
+        nleft, nright = pk.choice([(2, 1), (1, 2), (2, 2), (1, 1)])
+        pl = lambda: rng.choice(['inline', 'where'])
+        gl = rng.sample(GROUPS, nleft); gr = rng.sample(GROUPS, 3)
+        blocks, headers = [], []
+        for i in range(nleft):
+            blocks.append(Block(mk_slots(rng, ['T0', 'T1']), None, HEADERS[lh][0], [('{T1}', 'D', {'G': gl[i]}, pl())], 'l%d' % i)); headers.append(HEADERS[lh])
+        for i in range(nright):
+            blocks.append(Block(mk_slots(rng, ['T0', 'T1']), None, HEADERS['pairvec'][0], [('{T0}', 'D2', {'G': gr[i]}, pl())], 'r%d' % i)); headers.append(HEADERS['pairvec'])
+        blocks.append(Block(mk_slots(rng, ['T0', 'T1']), None, HEADERS[sh][0], [(wrap, 'D2', {'G': gr[2]}, 'where')], 's')); headers.append(HEADERS[sh])
+        order = list(range(len(blocks)))
+        if pk.choice([False, True]):
+            rng.shuffle(order)
+        blocks = [blocks[i] for i in order]; headers = [headers[i] for i in order]
+        for i, b in enumerate(blocks):
+            b.tag = 'b%d' % i
+        probes, world = build_world_and_probes(rng, blocks, headers, nprobes=8, impl_rate=0.9, prefer_rate=0.6)
+        for key in list(world):
+            if key[1] == 'D' and (key[0].startswith('Vec<') or key[0].startswith('Option<')) and key[0].endswith('>') and lh == 'vecpair' and key[0].startswith('Vec<'):
+                world[key] = None
+        for key in list(world):
+            if key[1] == 'D' and key[0].startswith('Vec<'):
+                world[key] = None      # D for no Vec<_> at all
+        return Case(kind, 'K', '', blocks, probes, world)
+    elif kind == 'ltbound':
+        # lifetimes that occur only in bounds, as arguments of the dispatch trait, declared in
+        # a different order in every block
+        h = pk.choice(['T', 'vec', 'ref', 'pair'])
+        self_fmt, used0 = HEADERS[h]
+        used = list(used0) + ['L1', 'L2']
+        tr = pk.choice(['Dl<{L1}, {L2}>', 'Dl<{L2}, {L1}>'])
+        groups = rng.sample(GROUPS, pk.choice([2, 3]))
+        blocks = []
+        for i, g in enumerate(groups):
+            slots = mk_slots(rng, used)
+            order = list(slots); rng.shuffle(order)
+            order = [x for x in order if x[0] == 'L'] + [x for x in order if x[0] != 'L']
+            bounds = [('{T0}', tr, {'G': g}, rng.choice(['inline', 'where']))]
+            blocks.append(Block({x: slots[x] for x in order}, None, self_fmt, bounds, 'b%d' % i))
+        headers = [(self_fmt, used)] * len(blocks)
     elif kind == 'overlap':
         mode = pk.choice(['same', 'wild', 'otherkey'])
         h = pk.choice(['T', 'pair', 'vec', 'opt', 'vecpair'])
